@@ -280,6 +280,20 @@ func applyChange(content string, lines []string, change TextDocumentContentChang
 	startOffset := positionToOffset(lines, change.Range.Start)
 	endOffset := positionToOffset(lines, change.Range.End)
 
+	// Positions past the end of the document clamp to its end (the offset of
+	// a line past the last one counts a newline the text does not have), and
+	// an inverted range is treated as empty: a client's edit must never take
+	// the server down.
+	if startOffset > len(content) {
+		startOffset = len(content)
+	}
+	if endOffset > len(content) {
+		endOffset = len(content)
+	}
+	if endOffset < startOffset {
+		endOffset = startOffset
+	}
+
 	// Build new content
 	var result strings.Builder
 	result.WriteString(content[:startOffset])
@@ -293,6 +307,13 @@ func applyChange(content string, lines []string, change TextDocumentContentChang
 
 // positionToOffset converts a Position to a byte offset
 func positionToOffset(lines []string, pos Position) int {
+	// Protocol positions are unsigned; treat negative values as 0.
+	if pos.Line < 0 {
+		pos.Line = 0
+	}
+	if pos.Character < 0 {
+		pos.Character = 0
+	}
 	offset := 0
 	for i := 0; i < pos.Line && i < len(lines); i++ {
 		offset += len(lines[i]) + 1 // +1 for newline
